@@ -1,9 +1,9 @@
 """C08 redundant axes, axis relabelling, mirroring"""
 from .common import jobs_for
 LEVEL = 'proof'
-LEVEL_TEXT = 'relational obligations between two different real builders: for data constant along a coordinate, every axis part of diffusion, central, upwind, TVD and divergence terms on the higher-dimensional grid equals, at a symbolic cell, the corresponding part on the reduced grid and the part of the redundant axis vanishes (all 9 embedding pairs Grid3D-Grid2D-Grid1D, CylindricalGrid3D-CylindricalGrid2D/PolarGrid2D-CylindricalGrid1D, incl. which axis is dropped); ghost values embed likewise; swapping two Cartesian axes permutes and reflecting an axis (velocity component reversed) mirrors every term'
-LEVEL_NOTE = 'equality of the solutions follows from equality of the assembled rows and uniqueness (A4), several time steps by induction; cyclic shifts along a periodic uniform axis are not claimed: the upwind term is not shift-invariant across a periodic boundary (recorded finding upwind-periodic-not-conservative) and no separate obligation was built for the other terms'
-NOT_MACHINE_CHECKED = ['cyclic shift of data along a periodic uniform axis shifts the solution']
+LEVEL_TEXT = 'relational obligations between two different real builders: for data constant along a coordinate, every axis part of diffusion, central, upwind, TVD and divergence terms on the higher-dimensional grid equals, at a symbolic cell, the corresponding part on the reduced grid and the part of the redundant axis vanishes (all 9 embedding pairs Grid3D-Grid2D-Grid1D, CylindricalGrid3D-CylindricalGrid2D/PolarGrid2D-CylindricalGrid1D, incl. which axis is dropped); ghost values embed likewise; swapping two Cartesian axes permutes and reflecting an axis (velocity component reversed) mirrors every term; boundary rows (boundaryConditionsTerm) embed like the ghost values; on a periodic uniform Cartesian axis a cyclic shift of all data by one cell shifts diffusion, central convection, divergence (and every term along the other axes) by one cell, wrap-around included'
+LEVEL_NOTE = 'equality of the solutions follows from equality of the assembled rows and uniqueness (A4), several time steps by induction; cyclic shift: the upwind term and the TVD correction are NOT shift-equivariant across a periodic boundary (refuted obligation replayed on the real code; recorded finding upwind-periodic-not-shift-equivariant, same root cause as upwind-periodic-not-conservative); a shift by s cells follows from the shift by one by iteration (Lean: invariant_iterate)'
+NOT_MACHINE_CHECKED = ['the step from equal assembled rows to equal solutions uses non-singularity of the system (assumed, A4) with the Lean lemma unique_solution; the correspondence between the SMT-proved row identities and the lemma hypotheses is by inspection']
 MODULES = ['contracts.embed']
 TRUSTED = ['A1', 'A2', 'A4', 'A5', 'A6', 'UF']
 
